@@ -1299,6 +1299,14 @@ func (e *scEngine) check(g *ssa.Function, sc scenario, depth int) (bool, string)
 		return true, ""
 	}
 	if len(loops) == 0 {
+		// elements reached by index (a counted loop, a fused pair loop) or through a
+		// closure / iterator: inspected in a form the analysis does not follow
+		if acc := indexedAccess(g, sc.Param); acc != "" {
+			if e.assumeReject {
+				return true, ""
+			}
+			e.undecidedOnSubject = append(e.undecidedOnSubject, acc)
+		}
 		return false, "the list is neither inspected element by element nor handed to a validating callee"
 	}
 	// the first loop (in block order) over the list must fail for a bad element
@@ -1477,10 +1485,42 @@ func (c *simCtx) verdict(reach map[*ssa.BasicBlock]bool, loop *sliceRange) (bool
 		}
 		if !c.e.isFailureReturn(c.f, r) {
 			// a returned error value that certainly fails under the scenario
+			traced := false
 			if ei := errResultIndex(c.f); ei >= 0 && ei < len(r.Results) {
-				if fails, known := c.errValueFails(r.Results[ei]); known && fails {
+				fails, known := c.errValueFails(r.Results[ei])
+				if known && fails {
 					continue
 				}
+				traced = known // the error of a module callee that can succeed under the scenario
+			}
+			// a returned error value that is neither the nil constant nor recognisably an
+			// error nor a callee's result (a variable, a value from another package): not
+			// evidence of success
+			// failure reported through a constant result ("" of the shift helpers): a result that
+			// a module callee computes from the argument may be that constant
+			if c.e.failConst[c.f] != nil && len(r.Results) > 0 {
+				if call, ok := resolve(r.Results[0]).(*ssa.Call); ok {
+					if g := calleeOf(call); g != nil && c.e.w.InModule(g) {
+						mentions := false
+						for _, a := range call.Call.Args {
+							if c.mentionsSubject(a, 0) {
+								mentions = true
+							}
+						}
+						if mentions {
+							if c.e.assumeReject {
+								continue
+							}
+							c.e.undecidedOnSubject = append(c.e.undecidedOnSubject, "the result returned at "+w.Pos(r.Pos())+" is computed from the argument by "+g.Name())
+						}
+					}
+				}
+			}
+			if ei := errResultIndex(c.f); ei >= 0 && !traced && c.e.failConst[c.f] == nil && classifyReturn(c.f, r) == retUnknown {
+				if c.e.assumeReject {
+					continue
+				}
+				c.e.undecidedOnSubject = append(c.e.undecidedOnSubject, "return at "+w.Pos(r.Pos())+" carries an error value the analysis cannot classify")
 			}
 			return false, "a success return is reachable at " + w.Pos(r.Pos())
 		}
@@ -1887,4 +1927,36 @@ func (c *simCtx) fieldHoldingSubject(v ssa.Value) int {
 		}
 	}
 	return out
+}
+
+// indexedAccess: the list parameter is indexed, sliced, captured by a closure or
+// handed to a call outside a range loop the engine recognises.
+func indexedAccess(g *ssa.Function, param int) string {
+	if param >= len(g.Params) {
+		return ""
+	}
+	p := g.Params[param]
+	if p.Referrers() == nil {
+		return ""
+	}
+	for _, ref := range *p.Referrers() {
+		switch x := ref.(type) {
+		case *ssa.IndexAddr:
+			return "element access " + shortInstr(x) + " in " + g.Name()
+		case *ssa.Slice:
+			return "slice " + shortInstr(x) + " in " + g.Name()
+		case *ssa.MakeClosure:
+			return "captured by a closure in " + g.Name()
+		case *ssa.Store:
+			return "stored in a variable in " + g.Name()
+		case *ssa.Call:
+			if bn := builtinName(x); bn == "len" || bn == "cap" {
+				continue
+			}
+			return "handed to " + shortInstr(x) + " in " + g.Name()
+		case *ssa.Range:
+			return "iterated by " + shortInstr(x) + " in " + g.Name()
+		}
+	}
+	return ""
 }
